@@ -58,6 +58,7 @@ func c01(c *Ctx) {
 	// ---- C01.4 client: verify and bind before trusting ---------------------------------------------------------------
 	c01Client(c)
 	c01VerdictTested(c)
+	c01SignedState(c)
 	// ---- C01.5 proto conversions carry every field ---------------------------------------------------------------------
 	c01Proto(c)
 }
@@ -711,5 +712,47 @@ func c01VerdictTested(c *Ctx) {
 	c.count("client_verifier_calls", n)
 	if n < 8 {
 		c.undecided(r, "floor", fmt.Sprintf("only %d verifier calls found in client-side packages (9 confirmed by hand)", n))
+	}
+}
+
+
+// c01SignedState: the state a server signs next to a proof is the state the proof leads to: its hash is computed from
+// DualProof.TargetTxHeader in every handler (the client checks the signature over the target state; a state computed
+// from another header of the response makes an honest, untampered answer unverifiable when the two differ).
+func c01SignedState(c *Ctx) {
+	r := "C01.6/signed-state-is-proof-target"
+	n := 0
+	for _, in := range c.callSites(callTo("pkg/api/schema.TxHeaderFromProto")) {
+		f := in.Parent()
+		if !fnInPkgs(f, []string{"pkg/server"}) {
+			continue
+		}
+		// only headers whose Alh goes into an ImmutableState
+		call, ok := in.(*ssa.Call)
+		if !ok {
+			continue
+		}
+		feeds := false
+		allInstrs(f, false, func(x ssa.Instruction) {
+			st, ok := x.(*ssa.Store)
+			if !ok {
+				return
+			}
+			if fl, _ := fieldOf(st.Addr); fl == "ImmutableState.TxHash" || fl == "ImmutableState.TxId" {
+				if dependsOn(st.Val, func(v ssa.Value) bool { return v == ssa.Value(call) }) {
+					feeds = true
+				}
+			}
+		})
+		if !feeds {
+			continue
+		}
+		n++
+		a := desc(call.Call.Args[0])
+		c.check(strings.HasSuffix(a, "DualProof.TargetTxHeader"), r, fmt.Sprintf("%s:signed-header#%d", fnName(f), idxAmong(in, callTo("pkg/api/schema.TxHeaderFromProto"))), c.pos(in.Pos()),
+			"signed state computed from "+a, "the signed state is computed from "+a+" instead of the proof's target header: when the returned tx is not the proof target the client rejects an honest answer (or accepts a signature over another state)")
+	}
+	if n < 8 {
+		c.undecided(r, "floor", fmt.Sprintf("%d signed-state sites found in pkg/server (9 confirmed by hand)", n))
 	}
 }
